@@ -304,7 +304,7 @@ func init() {
 			"printer glue = '<?php ', one blank, '?>'; every other chunk must alias the source buffer (token values are slices of it)",
 			"class/interface/trait member lists have no error production and are not used as insertion lists",
 		},
-		Plan: func(p core.Params) int { return p.Pick(30000, 1500000) },
+		Plan: func(p core.Params) int { return p.Pick(80000, 1500000) },
 		Run: func(c *core.Ctx, idx int) {
 			if idx%2 == 0 {
 				c07Recovery(c, idx)
